@@ -394,7 +394,7 @@ def run(ctx):
     if not ctx.replay:
         # length sweep: values / members / keys of the size constants of the write path +-32 bytes, for every
         # write command; quick: constants up to 1 MiB in 4 slices, thorough: all of them, all positions
-        nsl, mx = (4, 1 << 20) if quick else (6, 16 << 20)
+        nsl, mx = (4, 1 << 20) if quick else (6, 9 << 20)
         for k in range(nsl):
             pol = "wait_compact" if k % 2 == 0 else "local_deletion"
             jobs.append(("sweep-%d" % k, "-seed %d -sweep %d -sweeppart %d/%d -policy %s -port %d%s" % (
